@@ -365,6 +365,19 @@ func c13Gov(h *History, g *G) []EnvAction {
 		h.Labels["gov-multiplier"]++
 		return []EnvAction{h.W.GovEnv(&mctypes.MsgUpdatePoolMultipliers{Authority: GovAddr(), PoolMultipliers: []mctypes.PoolMultiplier{{PoolId: pi.PoolId, Multiplier: sdkmath.LegacyMustNewDecFromStr(mult)}}})}
 	}
+	if g.Bool("gov/denom?") {
+		// the list of supported external reward denoms gates NEW incentives; governance takes a denom off it (and puts
+		// it back later) while incentives in that denom are running
+		d := []string{"uusdt", paramtypes.ATOM}[g.Pick("gov/denom", 2)]
+		listed := false
+		for _, sd := range h.Cur.MCParams.SupportedRewardDenoms {
+			if sd != nil && sd.Denom == d {
+				listed = true
+			}
+		}
+		h.Labels["gov-reward-denom-listing"]++
+		return []EnvAction{h.W.GovEnv(&mctypes.MsgAddExternalRewardDenom{Authority: GovAddr(), RewardDenom: d, MinAmount: sdkmath.NewInt(1), Supported: !listed})}
+	}
 	h.Labels["gov-eden-toggle"]++
 	return []EnvAction{h.W.GovEnv(&mctypes.MsgTogglePoolEdenRewards{Authority: GovAddr(), PoolId: pi.PoolId, Enable: !pi.EnableEdenRewards})}
 }
@@ -575,9 +588,42 @@ var ProfileC07 = &Profile{
 	},
 }
 
+// c20Gov: a listing change while orders are pending – governance takes the pool off the leverage list (which also
+// deletes its perpetual pool) and may list it again later.
+func c20Gov(h *History, g *G) []EnvAction {
+	if g.Int("c20gov?", 0, 9) != 0 {
+		return nil
+	}
+	if len(h.Cur.LPPools) > 0 {
+		lp := h.Cur.LPPools[g.Pick("c20gov/pool", len(h.Cur.LPPools))]
+		msg := &lptypes.MsgRemovePool{Authority: GovAddr(), Id: lp.AmmPoolId}
+		if hd := h.W.App.MsgServiceRouter().Handler(msg); hd != nil {
+			cctx, _ := h.W.SetupCtx().CacheContext()
+			if err := safeCall(func() error { _, e := hd(cctx, msg); return e }); err == nil {
+				h.Labels["gov-pool-delisted"]++
+				return []EnvAction{h.W.GovEnv(msg)}
+			}
+		}
+		return nil
+	}
+	for _, p := range h.Cur.Pools {
+		if p.PoolParams.UseOracle {
+			msg := &lptypes.MsgAddPool{Authority: GovAddr(), Pool: lptypes.AddPool{AmmPoolId: p.PoolId, LeverageMax: sdkmath.LegacyNewDec(10)}}
+			if hd := h.W.App.MsgServiceRouter().Handler(msg); hd != nil {
+				cctx, _ := h.W.SetupCtx().CacheContext()
+				if err := safeCall(func() error { _, e := hd(cctx, msg); return e }); err == nil {
+					h.Labels["gov-pool-relisted"]++
+					return []EnvAction{h.W.GovEnv(msg)}
+				}
+			}
+		}
+	}
+	return nil
+}
+
 var ProfileC20 = &Profile{
 	MultiMsg: true,
-	ID:       "C20", Name: "tradeshield", MinBlocks: 6, MaxBlocks: 40, MaxTxs: 4, Spec: specDefault, Check: CheckC20, ExtraOps: c20ExtraOps, Filter: c20Filter,
+	ID:       "C20", Name: "tradeshield", MinBlocks: 6, MaxBlocks: 40, MaxTxs: 4, Spec: specDefault, Check: CheckC20, ExtraOps: c20ExtraOps, Filter: c20Filter, PreBlock: c20Gov,
 	Weights: map[string]int{"tradeshield.execute": 14, "oracle.feed_price": 10, "amm.swap_in": 5, "amm.swap_out": 3, "perpetual.open": 3, "perpetual.close": 2, "amm.join": 2, "amm.exit": 2, "stablestake.bond": 1},
 	Gaps:    []time.Duration{time.Second, 5 * time.Second, 6 * time.Second, time.Hour + time.Second},
 	Rule:    "history with an execution request that left a named order pending (skipped or failed attempt) followed later by the owner's cancel of that order, and >=1 executed order",
